@@ -91,6 +91,9 @@ Inductive event :=
 | RefHs (p ridx ep : N)            (* the remote initiates from ep announcing index ridx, and confirms with a keepalive *)
 | AnswerHs (p ridx ep : N)         (* the remote answers our outstanding initiation from ep, announcing ridx *)
 | Roam (p ep : N)                  (* authenticated keepalive of the remote arriving from ep *)
+| ReplayInit (p ep : N)            (* a byte-identical copy of p's most recent (already consumed) handshake initiation arrives
+                                      from ep, later than HandshakeInitationRate after the original: its timestamp is not
+                                      greater than the last one, so it is dropped: no response, no new key, endpoint unchanged *)
 | ShiftHs (p : N)                  (* lastSentHandshake moved more than RekeyTimeout into the past *)
 | Expire (p : N)                   (* keypair creation moved more than RejectAfterTime into the past *)
 | Down                             (* device.Down(): bind closed, every peer stopped (keypairs, handshake and staged packets flushed) *)
@@ -194,6 +197,7 @@ Definition peer_step (tbl : list entry) (mtu : Z) (up : bool) (i : N) (p : peer)
          end, firstn (N.to_nat k) o)
       else (p', o)
   | MtuUpdate _ => (p, [])
+  | ReplayInit _ _ => (p, [])
   | RefHs j ridx ep =>
       if j =? i then
         (* response goes out (lastSentHandshake = now), the confirming keepalive
